@@ -824,7 +824,102 @@ func genAdminGate() string {
 			return true
 		})
 	}
+	// C13: the route patterns every admin.api module of the tree registers (AdminRoute composite
+	// literals outside admin.go and tests); an identifier is resolved to a string constant of its package
+	var modRoutes []string
+	filepath.WalkDir(repo, func(p string, d os.DirEntry, err error) error {
+		if err != nil {
+			return nil
+		}
+		if d.IsDir() {
+			if n := d.Name(); n == ".git" || n == "vendor" || n == "testdata" {
+				return filepath.SkipDir
+			}
+			return nil
+		}
+		rel, _ := filepath.Rel(repo, p)
+		if !strings.HasSuffix(p, ".go") || strings.HasSuffix(p, "_test.go") || strings.HasSuffix(p, "_verif.go") || rel == "admin.go" {
+			return nil
+		}
+		src, err := os.ReadFile(p)
+		if err != nil || !strings.Contains(string(src), "AdminRoute") {
+			return nil
+		}
+		_, af := parseFile(rel)
+		if af == nil {
+			return nil
+		}
+		ast.Inspect(af, func(x ast.Node) bool {
+			outer, ok := x.(*ast.CompositeLit)
+			if !ok || outer.Type == nil {
+				return true
+			}
+			elemType := outer.Type
+			at, isArr := outer.Type.(*ast.ArrayType)
+			if isArr {
+				elemType = at.Elt
+			}
+			if !strings.HasSuffix(exprText(elemType), "AdminRoute") {
+				return true
+			}
+			lits := []*ast.CompositeLit{outer}
+			if isArr {
+				lits = nil
+				for _, el := range outer.Elts {
+					if icl, ok := el.(*ast.CompositeLit); ok {
+						lits = append(lits, icl)
+					}
+				}
+			}
+			for _, cl := range lits {
+				for _, el := range cl.Elts {
+					kv, ok := el.(*ast.KeyValueExpr)
+					if !ok || exprText(kv.Key) != "Pattern" {
+						continue
+					}
+					val := exprText(kv.Value)
+					if bl, ok := kv.Value.(*ast.BasicLit); ok && bl.Kind == token.STRING {
+						val, _ = strconv.Unquote(bl.Value)
+					} else if id, ok := kv.Value.(*ast.Ident); ok {
+						// a package-level string constant of the same directory
+						ents, _ := os.ReadDir(filepath.Dir(p))
+						for _, e := range ents {
+							if !strings.HasSuffix(e.Name(), ".go") || strings.HasSuffix(e.Name(), "_test.go") {
+								continue
+							}
+							_, cf := parseFile(filepath.Join(filepath.Dir(rel), e.Name()))
+							if cf == nil {
+								continue
+							}
+							for _, decl := range cf.Decls {
+								gd, ok := decl.(*ast.GenDecl)
+								if !ok || gd.Tok != token.CONST {
+									continue
+								}
+								for _, sp := range gd.Specs {
+									vs := sp.(*ast.ValueSpec)
+									for i, n := range vs.Names {
+										if n.Name == id.Name && i < len(vs.Values) {
+											if bl, ok := vs.Values[i].(*ast.BasicLit); ok && bl.Kind == token.STRING {
+												val, _ = strconv.Unquote(bl.Value)
+											}
+										}
+									}
+								}
+							}
+						}
+					}
+					modRoutes = append(modRoutes, "("+leanStr(filepath.ToSlash(rel))+", "+leanStr(val)+")")
+				}
+			}
+			return true
+		})
+		return nil
+	})
+	sort.Strings(modRoutes)
 	return header +
+		"/-- the route patterns registered by the admin.api modules of the tree: every `AdminRoute{Pattern: …}` composite\n    literal outside admin.go, tests and verif hooks, as (file, pattern); an identifier is resolved to the string\n    constant of its package -/\n" +
+		"def moduleAdminRoutePatterns : List (String × String) := [" + strings.Join(modRoutes, ", ") + "]\n\n" +
 		"/-- the gates in the order `adminHandler.serveHTTP` (admin.go) reaches them, helpers of the same file inlined:\n    remote ACL, websocket refusal, host check, origin check, then the mux -/\n" +
 		"def adminGateSequence : List String := " + leanStrList(gates) + "\n\n" +
 		"def adminMuxIsLastStatement : Bool := " + strconv.FormatBool(muxLast) + "\n\n" +
